@@ -23,7 +23,7 @@ func run(c *core.Ctx) {
 	if c.Thorough() {
 		mc, gen = "MC_C18.cfg", "Gen_C18_thorough.cfg"
 	}
-	if c.Replay == "" {
+	if c.Replay == "" && os.Getenv("VERIF_DEV_SKIPMC") == "" {
 		if kit.ModelCheck(c, "FSAuth.tla", mc, tlc.Options{Workers: 16}) == nil {
 			return
 		}
